@@ -1,6 +1,7 @@
 package flowsim
 
 import (
+	"encoding/json"
 	"math/rand/v2"
 )
 
@@ -191,6 +192,20 @@ func (g *gen) leaf(nv int) *NodeSpec {
 		}
 		if g.chance(g.sleepP) {
 			vs.Post.SleepMs = 10
+		}
+		if n.Kind != "func" && g.chance(0.15) {
+			// struct / plain nodes: a payload that is itself a flyt.Result must pass through untouched
+			if vs.Prep.Fail == "" && g.chance(0.5) {
+				vs.Prep.Pay = "result"
+			}
+			for a := range vs.Exec {
+				if vs.Exec[a].Fail == "" {
+					vs.Exec[a].Pay = "result"
+				}
+			}
+			if vs.Fb != nil && vs.Fb.Fail == "" {
+				vs.Fb.Pay = "result"
+			}
 		}
 		n.Visits = append(n.Visits, vs)
 	}
@@ -902,6 +917,11 @@ func (g *gen) anyNode(action string) *NodeSpec {
 		n.Visits[0].Post.Action = action
 		if g.chance(0.2) {
 			n.Styles = "RR-" // no post function: the default action
+		} else if !n.Hand && g.chance(0.25) {
+			n.OptPost = true // post given as a generic function option to NewBatchNode
+			st := []byte(n.Styles)
+			st[2] = pick(g.r, []byte("RA"))
+			n.Styles = string(st)
 		}
 		return n
 	default:
@@ -949,7 +969,38 @@ func genC18(prop, tier string, r *rand.Rand) *Scn {
 	return g.sc
 }
 
+// addDecoys: for some function / batch nodes, attach a function of the other
+// style first and replace it by the real one (last setting wins).
+func addDecoys(sc *Scn, r *rand.Rand) {
+	for _, n := range sc.Nodes {
+		if (n.Kind != "func" && n.Kind != "batch") || n.Hand || n.OptPost || r.IntN(3) != 0 {
+			continue
+		}
+		d := ""
+		if n.Kind == "func" {
+			for i, ph := range []byte("pex") {
+				if n.style(i) != '-' && r.IntN(2) == 0 {
+					d += string(ph)
+				}
+			}
+		} else if n.style(1) != '-' && r.IntN(2) == 0 {
+			d += "e"
+		}
+		if n.HasFb && r.IntN(2) == 0 {
+			d += "f"
+		}
+		n.Decoy = d
+		n.DecoyForm = pick(r, []string{"opt", "builder"})
+	}
+}
+
 func genC17(prop, tier string, r *rand.Rand) *Scn {
+	sc := genC17base(prop, tier, r)
+	addDecoys(sc, r)
+	return sc
+}
+
+func genC17base(prop, tier string, r *rand.Rand) *Scn {
 	return bounded(func() *Scn {
 		g := newGen(prop, tier, r)
 		g.kinds = []string{"func"}
@@ -1010,6 +1061,28 @@ func genC19(prop, tier string, r *rand.Rand) *Scn {
 		n.Settings = append(n.Settings, s)
 	}
 	n.Settings = orderSettings(n.Settings)
+	reconf := r.IntN(5) < 2
+	if reconf {
+		// the same object is re-configured after its first run and run again
+		for i := 1 + r.IntN(3); i > 0; i-- {
+			s := Setting{Form: pick(r, []string{"opt", "builder"})}
+			if n.Kind == "base" {
+				s.Form = "opt"
+			}
+			switch r.IntN(4) {
+			case 0:
+				s.Param, s.Val = "retries", 1+r.IntN(5)
+			case 1:
+				s.Param, s.Val = "wait", pick(r, []int{0, 10, 20, 50})
+			case 2:
+				s.Param, s.Val = "conc", r.IntN(5)
+			default:
+				s.Param, s.Val = "stop", r.IntN(2)
+			}
+			n.Reconf = append(n.Reconf, s)
+		}
+		g.sc.Runs = 2
+	}
 	cfg := n.config()
 	// probe scripts that make the configuration observable
 	vs := &n.Visits[0]
@@ -1023,9 +1096,40 @@ func genC19(prop, tier string, r *rand.Rand) *Scn {
 			}
 		}
 		g.timing(n)
+		if cfg.Conc >= 2 && !cfg.Stop && r.IntN(3) == 0 {
+			for i := range vs.Items {
+				for a := range vs.Items[i].Exec {
+					vs.Items[i].Exec[a].Gate = ""
+					vs.Items[i].Exec[a].SleepMs = 0
+				}
+				vs.Items[i].Exec[0].Gate = "barrier"
+			}
+		}
 	} else {
 		vs.Exec = g.execScript(cfg.Retries, false)
 	}
+	if reconf {
+		// second visit: a fresh probe sized for the new configuration
+		b, _ := json.Marshal(n.Visits[0])
+		var v2 Visit
+		json.Unmarshal(b, &v2)
+		cfg2 := n.configRun(1)
+		barrier2 := r.IntN(2) == 0 // all items or none: a barrier needs every item to start
+		if isBatch {
+			for i := range v2.Items {
+				v2.Items[i].Exec = g.execScript(cfg2.Retries, false)
+				if cfg2.Conc >= 2 && !cfg2.Stop && barrier2 {
+					// the configured concurrency must be usable: executions park until min(c, n) have started
+					v2.Items[i].Exec[0].Gate = "barrier"
+					v2.Items[i].Exec[0].SleepMs = 0
+				}
+			}
+		} else {
+			v2.Exec = g.execScript(cfg2.Retries, false)
+		}
+		n.Visits = append(n.Visits[:1], v2)
+	}
+	addDecoys(g.sc, r)
 	return g.sc
 }
 
@@ -1051,6 +1155,19 @@ func canonical(sc *Scn) *Scn {
 		}
 		if n.Kind == "func" || n.Kind == "batch" {
 			n.FnForm = "opt"
+		}
+		n.Decoy, n.DecoyForm = "", ""
+		lastR := map[string]int{}
+		var orderR []string
+		for _, s := range n.Reconf {
+			if _, ok := lastR[s.Param]; !ok {
+				orderR = append(orderR, s.Param)
+			}
+			lastR[s.Param] = s.Val
+		}
+		n.Reconf = nil
+		for _, p := range orderR {
+			n.Reconf = append(n.Reconf, Setting{Param: p, Form: "opt", Val: lastR[p]})
 		}
 	}
 	return c
